@@ -4,11 +4,12 @@
    stores `unparked` before the wake-up; try_wait is a load + CAS loop; a timeout / cancel may still
    win after the token was set).  All statements are for every reachable state: any number of
    threads and coroutines, any interleaving of wait / wait_timeout / try_wait / post / get_value
-   (wait / wait_timeout / is_fired / fire), any initial value, timeouts and cancellation at any point. *)
+   (wait / wait_timeout / is_fired / fire), any initial value, timeouts and cancellation at any point.
+   The quiescence / wake-up statements of the Semphore are in C10_quiesce.v, the hand-off statements in
+   C10_handoff.v (separate files so that the Print Assumptions traversals run in parallel). *)
 From Coq Require Import List ZArith.
 Import ListNotations.
 Require Import MayV.Sync.SemModel MayV.Sync.SemInv MayV.Sync.SemThm MayV.Sync.SemPop MayV.Sync.SemAccept.
-Require Import MayV.Sync.SemLive MayV.Sync.SemLiveThm.
 Require MayV.Sync.FlagModel MayV.Sync.FlagInv MayV.Sync.FlagAccept MayV.Sync.FlagLive MayV.Sync.FlagLiveThm.
 Open Scope Z_scope.
 
@@ -40,93 +41,6 @@ Theorem C10_sem_pop_never_empty :
   forall i s a, 0 <= i -> Reach i s -> apc (A s a) = K1 -> q s <> [].
 Proof. exact pop_never_empty. Qed.
 Print Assumptions C10_sem_pop_never_empty.
-
-(* ---- quiescence and hand-off (second ghost overlay, Sync/SemLive.v: ag / dl / rp / sc / fl are stepped
-   alongside the model by `lstep`, never read by it; ReachL projects onto and lifts from Reach).
-   `Quiescent s`: no actor has an enabled transition of its own - everybody is idle (all calls have
-   returned) or suspended in its park with no reason to resume; the timer / cancel (Fire) and the
-   start of new calls are the environment's. ---- *)
-
-(* (ii) at quiescence get_value() = max(cnt, 0) = init + posts - successful waits *)
-Theorem C10_sem_value_at_quiescence :
-  forall i s, 0 <= i -> Reach i s -> Quiescent s -> Z.max (cnt s) 0 = i + uposts s - succ s.
-Proof. exact value_at_quiescence. Qed.
-Print Assumptions C10_sem_value_at_quiescence.
-
-Theorem C10_sem_value_at_rest :
-  forall i s, 0 <= i -> Reach i s -> (forall a, apc (A s a) = Idle) -> Z.max (cnt s) 0 = i + uposts s - succ s.
-Proof. exact value_at_rest. Qed.
-Print Assumptions C10_sem_value_at_rest.
-
-(* (iv) "whenever permits suffice every waiter proceeds", as a safety statement: a quiescent state with
-   init + posts - successes > 0 has nobody parked - every wait has returned.  (What is NOT formalised:
-   the scheduler's fairness, i.e. that a non-quiescent system eventually takes its enabled steps, and
-   that try_wait's CAS loop only retries when another actor changed the counter.) *)
-Theorem C10_sem_no_waiter_parked_when_permits_suffice :
-  forall i s, 0 <= i -> Reach i s -> Quiescent s -> 0 < i + uposts s - succ s -> forall a, apc (A s a) = Idle.
-Proof. exact no_waiter_parked_when_permits_suffice. Qed.
-Print Assumptions C10_sem_no_waiter_parked_when_permits_suffice.
-
-Theorem C10_sem_no_waiter_parked_when_counter_positive :
-  forall i s, 0 <= i -> Reach i s -> Quiescent s -> 0 < cnt s -> forall a, apc (A s a) = Idle.
-Proof. exact no_waiter_parked_when_counter_positive. Qed.
-Print Assumptions C10_sem_no_waiter_parked_when_counter_positive.
-
-(* no lost wake-up in EVERY reachable state: a suspended waiter whose blocker was handed a permit has
-   been given a reason to resume, or the agent that popped it is about to deliver the token (K3);
-   a waiter about to park on such a blocker finds the token, or the agent is at K3 *)
-Theorem C10_sem_flagged_waiter_resumed_or_token_in_flight :
-  forall i s a, 0 <= i -> Reach i s -> apc (A s a) = WW -> unp (Bk s (ab (A s a))) = true ->
-  reason (Bk s (ab (A s a))) <> None \/ exists g, apc (A s g) = K3 /\ aw (A s g) = ab (A s a).
-Proof. exact flagged_waiter_resumed_or_token_in_flight. Qed.
-Print Assumptions C10_sem_flagged_waiter_resumed_or_token_in_flight.
-
-Theorem C10_sem_flagged_prepark_token_or_in_flight :
-  forall i s a, 0 <= i -> Reach i s -> apc (A s a) = WP -> unp (Bk s (ab (A s a))) = true ->
-  tok (Bk s (ab (A s a))) = true \/ exists g, apc (A s g) = K3 /\ aw (A s g) = ab (A s a).
-Proof. exact flagged_prepark_token_or_in_flight. Qed.
-Print Assumptions C10_sem_flagged_prepark_token_or_in_flight.
-
-(* (iii) a permit handed to a blocker b (its `unparked` flag stored) is settled at most once: by the
-   owner's successful return (sc o b) or by ONE decision to re-post (rp o b: owner at is_unparked /
-   take_release on the error path, or the agent at take_release in wakeup_one), never twice, never both;
-   and exactly once as soon as b is no longer pending (not in giv / pre) *)
-Theorem C10_sem_handoff_settled_at_most_once :
-  forall i s o b, 0 <= i -> ReachL i s o -> (rp o b + sc o b <= 1)%nat.
-Proof. exact handoff_settled_at_most_once. Qed.
-Print Assumptions C10_sem_handoff_settled_at_most_once.
-
-Theorem C10_sem_handoff_settled_once_unregistered :
-  forall i s o b, 0 <= i -> ReachL i s o ->
-  unp (Bk s b) = true -> ~ In b (giv s) -> ~ In b (pre s) -> (rp o b + sc o b = 1)%nat.
-Proof. exact handoff_settled_once_unregistered. Qed.
-Print Assumptions C10_sem_handoff_settled_once_unregistered.
-
-(* the waiter timed out / was cancelled on b (fl o b) although b had been handed a permit: the permit
-   is re-posted exactly once (and the wait did not also succeed) *)
-Theorem C10_sem_handoff_reposted_exactly_once :
-  forall i s o b, 0 <= i -> ReachL i s o ->
-  fl o b = true -> unp (Bk s b) = true -> ~ In b (giv s) -> ~ In b (pre s) -> rp o b = 1%nat /\ sc o b = O.
-Proof. exact timed_out_handoff_reposted_exactly_once. Qed.
-Print Assumptions C10_sem_handoff_reposted_exactly_once.
-
-Theorem C10_sem_handoff_reposted_at_quiescence :
-  forall i s o b, 0 <= i -> ReachL i s o -> Quiescent s ->
-  fl o b = true -> unp (Bk s b) = true -> rp o b = 1%nat /\ sc o b = O.
-Proof. exact timed_out_handoff_reposted_at_quiescence. Qed.
-Print Assumptions C10_sem_handoff_reposted_at_quiescence.
-
-(* a waiter that left without having been handed anything is never re-posted for *)
-Theorem C10_sem_no_repost_without_handoff :
-  forall i s o b, 0 <= i -> ReachL i s o -> unp (Bk s b) = false -> rp o b = O /\ sc o b = O.
-Proof. exact no_repost_without_handoff. Qed.
-Print Assumptions C10_sem_no_repost_without_handoff.
-
-(* the overlay adds nothing to the model: every reachable state carries an overlay state, and conversely *)
-Theorem C10_sem_overlay_conservative :
-  forall i s, (Reach i s <-> exists o, ReachL i s o).
-Proof. exact overlay_conservative. Qed.
-Print Assumptions C10_sem_overlay_conservative.
 
 (* tie: every state along a trace of the real Semphore that the acceptor accepts is a reachable state *)
 Theorem C10_sem_accepted_traces_are_model_runs :
@@ -174,24 +88,6 @@ Example C10_flag_latch_somewhere :
   FlagModel.Reach 9223372036854775807 s /\ FlagModel.ufired s = true /\ FlagModel.fbound s = 0 /\
   FlagModel.cnt s = 9223372036854775807 /\ FlagModel.obs s = [(2%nat, true); (0%nat, true)].
 Proof. exact FlagInv.latch_somewhere. Qed.
-(* a waiter parked for good: quiescent, counter -1, value 0 = init + posts - successes *)
-Example C10_sem_parked_quiescent_somewhere :
-  let s := run (init 0) sch_parked in
-  Reach 0 s /\ Quiescent s /\ apc (A s 1%nat) = WW /\ parked (Bk s (ab (A s 1%nat))) = true /\
-  cnt s = -1 /\ Z.max (cnt s) 0 = 0 + uposts s - succ s.
-Proof. exact parked_quiescent_somewhere. Qed.
-(* quiescent with a permit left: nobody parked *)
-Example C10_sem_permits_left_quiescent_somewhere :
-  let s := run (init 0) sch in
-  Reach 0 s /\ Quiescent s /\ 0 < 0 + uposts s - succ s /\ cnt s = 1 /\ (forall a, apc (A s a) = Idle).
-Proof. exact permits_left_quiescent_somewhere. Qed.
-(* a waiter is handed a permit (flag stored), times out before the token arrives and re-posts it; the agent does not *)
-Example C10_sem_timed_out_handoff_reposted_somewhere :
-  let r := runL (init 0) lv0 sch_race in
-  ReachL 0 (fst r) (snd r) /\ fl (snd r) 1%nat = true /\ unp (Bk (fst r) 1%nat) = true /\ rp (snd r) 1%nat = 1%nat /\
-  apc (A (fst r) 1%nat) = Idle /\ apc (A (fst r) 2%nat) = Idle /\ ares (A (fst r) 1%nat) = false /\
-  cnt (fst r) = 1 /\ uposts (fst r) = 1 /\ succ (fst r) = 0.
-Proof. exact race_somewhere. Qed.
 (* two waiters park, a user fires: fired, queue empty, everybody has returned true *)
 Example C10_flag_fired_all_woken_somewhere :
   let s := FlagModel.run 9223372036854775807 FlagModel.init FlagLiveThm.sch2 in
